@@ -45,6 +45,7 @@ type GoPanic struct {
 	Val       Value
 	Msg       string // best-effort rendering
 	Runtime   bool   // runtime error (nil deref, index, failed assertion)
+	Stack     []string
 	recovered bool
 }
 
@@ -65,6 +66,7 @@ type Stats struct {
 	Branches      int
 	MaxDepth      int
 	UnknownBranch int
+	QuickDecided  int
 }
 
 func (s *Stats) Merge(o *Stats) {
@@ -95,6 +97,7 @@ func (s *Stats) Merge(o *Stats) {
 	s.SolverTime += o.SolverTime
 	s.Branches += o.Branches
 	s.UnknownBranch += o.UnknownBranch
+	s.QuickDecided += o.QuickDecided
 	if o.MaxDepth > s.MaxDepth {
 		s.MaxDepth = o.MaxDepth
 	}
@@ -142,6 +145,8 @@ type Exec struct {
 	*World
 	PC           []*smt.Term
 	Domain       []*smt.Term // input-domain constraints (regexes) only needed to make models realistic
+	eq           *eqState
+	NoQuick      bool
 	prefix       []int
 	decisions    []int
 	pos          int
@@ -265,6 +270,10 @@ func runOnePath(w *World, st *Stats, prefix []int, pending *[][]int, body func(e
 					st.Inconclusive = append(st.Inconclusive, e.Msg)
 				case "steps":
 					m := ex.ModelOf(nil)
+					if m["$status"] == "unsat" {
+						st.Infeasible++
+						break
+					}
 					st.Unwinding = append(st.Unwinding, UnwindFailure{Msg: e.Msg, Model: m, Stack: e.Stack, Path: append([]int(nil), ex.decisions[:ex.pos]...)})
 				case "infeasible":
 					st.Infeasible++
@@ -283,6 +292,9 @@ func runOnePath(w *World, st *Stats, prefix []int, pending *[][]int, body func(e
 	body(ex)
 	st.Completed++
 }
+
+// StackAtPanic returns the call stack (innermost last) recorded when the panic was raised.
+func (ex *Exec) StackAtPanic(p *GoPanic) []string { return p.Stack }
 
 // Assume adds a constraint; ends the path if it becomes infeasible.
 func (ex *Exec) Assume(c *smt.Term) {
@@ -312,6 +324,130 @@ func (ex *Exec) AssumeNoCheck(c *smt.Term) {
 		return
 	}
 	ex.PC = append(ex.PC, c)
+	ex.noteFact(c)
+}
+
+// ---- a cheap decision procedure for (dis)equalities between atoms ----
+// Branch conditions in moq's name bookkeeping are overwhelmingly `x == y` between names and
+// constants. Those are decided on a union-find over the path condition's equalities and
+// disequalities without calling the solver. The procedure only ever answers "infeasible" when
+// that follows from the recorded facts (sound); when it cannot decide it answers "feasible",
+// which may keep an infeasible path alive — harmless, because every obligation and every
+// reported failure on a path is decided by the solver under the full path condition.
+
+type eqState struct {
+	parent map[*smt.Term]*smt.Term
+	diseq  map[[2]*smt.Term]bool
+	konst  map[*smt.Term]*smt.Term // class representative -> constant member
+	dead   bool
+}
+
+func (ex *Exec) eqs() *eqState {
+	if ex.eq == nil {
+		ex.eq = &eqState{parent: map[*smt.Term]*smt.Term{}, diseq: map[[2]*smt.Term]bool{}, konst: map[*smt.Term]*smt.Term{}}
+	}
+	return ex.eq
+}
+
+func (e *eqState) find(t *smt.Term) *smt.Term {
+	p, ok := e.parent[t]
+	if !ok {
+		e.parent[t] = t
+		if t.IsConst {
+			e.konst[t] = t
+		}
+		return t
+	}
+	if p == t {
+		return t
+	}
+	r := e.find(p)
+	e.parent[t] = r
+	return r
+}
+
+func (e *eqState) neq(a, b *smt.Term) bool {
+	ra, rb := e.find(a), e.find(b)
+	if ra == rb {
+		return false
+	}
+	if ka, kb := e.konst[ra], e.konst[rb]; ka != nil && kb != nil && ka != kb {
+		return true
+	}
+	return e.diseq[[2]*smt.Term{ra, rb}] || e.diseq[[2]*smt.Term{rb, ra}]
+}
+
+func (e *eqState) union(a, b *smt.Term) {
+	ra, rb := e.find(a), e.find(b)
+	if ra == rb {
+		return
+	}
+	if e.neq(ra, rb) {
+		e.dead = true
+	}
+	e.parent[ra] = rb
+	if k := e.konst[ra]; k != nil {
+		e.konst[rb] = k
+	}
+	for k := range e.diseq {
+		if k[0] == ra {
+			e.diseq[[2]*smt.Term{rb, k[1]}] = true
+		}
+		if k[1] == ra {
+			e.diseq[[2]*smt.Term{k[0], rb}] = true
+		}
+	}
+}
+
+func (ex *Exec) noteFact(c *smt.Term) {
+	e := ex.eqs()
+	switch c.Op {
+	case "and":
+		for _, a := range c.Args {
+			ex.noteFact(a)
+		}
+	case "=":
+		if c.Args[0].Sort == smt.String || c.Args[0].Sort == smt.Int {
+			e.union(c.Args[0], c.Args[1])
+		}
+	case "not":
+		if x := c.Args[0]; x.Op == "=" && (x.Args[0].Sort == smt.String || x.Args[0].Sort == smt.Int) {
+			ra, rb := e.find(x.Args[0]), e.find(x.Args[1])
+			if ra == rb {
+				e.dead = true
+			}
+			e.diseq[[2]*smt.Term{ra, rb}] = true
+		}
+	}
+}
+
+// quickDecide answers feasibility of an atom `a = b` / `not (a = b)` from the recorded facts.
+// ok=false means the guard is not of that shape.
+func (ex *Exec) quickDecide(g *smt.Term) (feasible bool, ok bool) {
+	if ex.NoQuick {
+		return false, false
+	}
+	neg := false
+	x := g
+	if x.Op == "not" {
+		neg, x = true, x.Args[0]
+	}
+	if x.Op != "=" || x.Args[0].Sort != smt.String {
+		return false, false
+	}
+	for _, t := range x.Args {
+		if t.Op != "var" && t.Op != "const" {
+			return false, false // only plain names and constants; anything structured goes to the solver
+		}
+	}
+	e := ex.eqs()
+	a, b := x.Args[0], x.Args[1]
+	same := e.find(a) == e.find(b)
+	differ := e.neq(a, b)
+	if neg {
+		return !same, true
+	}
+	return !differ, true
 }
 
 // Branch decides a symbolic condition, forking if both sides are feasible.
@@ -334,6 +470,13 @@ func (ex *Exec) Choose(guards []*smt.Term) int {
 		return d
 	}
 	ex.Stats.Branches++
+	if ex.Trace && len(guards) > 0 && guards[0] != nil {
+		g := guards[0].String()
+		if len(g) > 160 {
+			g = g[:160]
+		}
+		fmt.Fprintf(os.Stderr, "  guard@%d in %s: %s\n", ex.pos, ex.where(), g)
+	}
 	var feas []int
 	binary := len(guards) == 2 && guards[0] != nil && guards[1] != nil && guards[1] == ex.C.Not(guards[0])
 	for i, g := range guards {
@@ -347,6 +490,13 @@ func (ex *Exec) Choose(guards []*smt.Term) int {
 		}
 		if g.IsConst {
 			if g.B {
+				feas = append(feas, i)
+			}
+			continue
+		}
+		if f, ok := ex.quickDecide(g); ok {
+			ex.Stats.QuickDecided++
+			if f {
 				feas = append(feas, i)
 			}
 			continue
@@ -407,7 +557,7 @@ func (ex *Exec) oblige(cond *smt.Term, label string, implicit bool) bool {
 	r, _ := ex.S.Check(fs, nil)
 	if r != smt.Unsat && len(ex.Domain) > 0 {
 		// a counterexample only counts inside the declared input domain
-		r, _ = ex.S.Check(append(fs, ex.Domain...), nil)
+		r, _ = ex.S.CheckHard(append(fs, ex.Domain...), nil)
 	}
 	ob := Obligation{Label: label, Path: append([]int(nil), ex.decisions[:ex.pos]...), Implicit: implicit}
 	if len(cond.String()) < 400 {
@@ -452,7 +602,30 @@ func (ex *Exec) Fail(label string) {
 	if ex.replaying() {
 		return
 	}
-	ex.Stats.Obligations = append(ex.Stats.Obligations, Obligation{Label: label, Result: "violated", Path: append([]int(nil), ex.decisions[:ex.pos]...), Model: ex.ModelOf(nil)})
+	m := ex.ModelOf(nil)
+	if m["$status"] == "unsat" {
+		return // the path itself is infeasible (kept alive by the cheap feasibility procedure)
+	}
+	ex.Stats.Obligations = append(ex.Stats.Obligations, Obligation{Label: label, Result: "violated", Path: append([]int(nil), ex.decisions[:ex.pos]...), Model: m})
+}
+
+// ObligeAll discharges several assertions with one query when they all hold (the common case)
+// and falls back to one query per assertion otherwise.
+func (ex *Exec) ObligeAll(conds []*smt.Term, labels []string) {
+	if ex.replaying() {
+		return
+	}
+	all := ex.C.And(conds...)
+	fs := append(append([]*smt.Term(nil), ex.PC...), ex.C.Not(all))
+	if r, _ := ex.S.Check(fs, nil); r == smt.Unsat {
+		for _, l := range labels {
+			ex.Stats.Obligations = append(ex.Stats.Obligations, Obligation{Label: l, Result: "discharged", Formula: "(discharged jointly with the other assertions of this path)"})
+		}
+		return
+	}
+	for i := range conds {
+		ex.Oblige(conds[i], labels[i])
+	}
 }
 
 // Pass records a discharged obligation that was decided by constant folding.
@@ -480,7 +653,13 @@ func (ex *Exec) ModelOf(extra *smt.Term) map[string]string {
 	if len(want) == 0 {
 		return map[string]string{}
 	}
-	r, m := ex.S.Check(fs, want)
+	var r smt.Result
+	var m map[*smt.Term]string
+	if len(ex.Domain) > 0 {
+		r, m = ex.S.CheckHard(fs, want)
+	} else {
+		r, m = ex.S.Check(fs, want)
+	}
 	out := map[string]string{}
 	if r != smt.Sat {
 		out["$status"] = r.String()
